@@ -102,11 +102,17 @@ pub fn sibling(t: &mut Tape, source: &str) -> String {
 pub const TX3C: &str = "/verif/sim/target-tx3c/release/tx3c";
 pub const SHIM: &str = "/verif/sim/target/getrandom_shim.so";
 
+thread_local! {
+    /// extra command-line arguments of this world's tx3c runs (profiles, env files)
+    static TX3C_EXTRA: std::cell::RefCell<Vec<String>> = const { std::cell::RefCell::new(Vec::new()) };
+}
+
 fn run_tx3c(src_path: &str, out_path: &str, hseed: u64) -> Result<Vec<u8>, String> {
     run_tx3c_keep(src_path, out_path, hseed, false)
 }
 
 fn run_tx3c_keep(src_path: &str, out_path: &str, hseed: u64, keep: bool) -> Result<Vec<u8>, String> {
+    let extra: Vec<String> = TX3C_EXTRA.with(|e| e.borrow().clone());
     let st = Command::new(TX3C)
         .arg("build")
         .arg(src_path)
@@ -114,6 +120,7 @@ fn run_tx3c_keep(src_path: &str, out_path: &str, hseed: u64, keep: bool) -> Resu
         .arg("tii")
         .arg("-o")
         .arg(out_path)
+        .args(&extra)
         .env("LD_PRELOAD", SHIM)
         .env("VERIF_HASH_SEED", hseed.to_string())
         .stdout(Stdio::null())
@@ -322,6 +329,35 @@ pub fn world_c18(tier: Tier, world_no: u64, mut t: Tape) -> WorldReport {
         let _ = std::fs::create_dir_all(&dir);
         let src_path = dir.join("prog.tx3");
         let _ = std::fs::write(&src_path, &source);
+        // half of the process-level worlds build with profiles: a forced profile and one fed from a
+        // dotenv file whose keys come in several letter cases (OWNER= / owner=), as env files
+        // written by hand do
+        let mut extra: Vec<String> = vec![];
+        if t.chance(1, 2) {
+            let mut lines: Vec<String> = vec![];
+            for word in source.split_whitespace().collect::<Vec<_>>().windows(2) {
+                if word[0] == "party" {
+                    let n = word[1].trim_end_matches(';');
+                    lines.push(format!("{}=addr_test1upper{}", n.to_uppercase(), n.len()));
+                    lines.push(format!("{}=addr_test1lower{}", n.to_lowercase(), n.len()));
+                    lines.push(format!("{}=addr_test1asis{}", n, n.len()));
+                }
+            }
+            for (k, e) in ["ev0", "ev1", "field_a", "mint_policy"].iter().enumerate() {
+                lines.push(format!("{}={}", e.to_uppercase(), 10 + k));
+                lines.push(format!("{}={}", e, 20 + k));
+            }
+            // file order is part of the input, not of the entropy: shuffled by the tape
+            t.shuffle(&mut lines);
+            let env_path = dir.join("dev.env");
+            let _ = std::fs::write(&env_path, lines.join("\n") + "\n");
+            extra.push("--profile-env-file".into());
+            extra.push(format!("dev:{}", env_path.to_str().unwrap()));
+            extra.push("--profile".into());
+            extra.push("staging".into());
+            rep.fire("profiles-and-env-file");
+        }
+        TX3C_EXTRA.with(|e| *e.borrow_mut() = extra.clone());
         let nproc = if tier == Tier::Quick { 3 } else { 3 };
         for i in 0..nproc {
             let out = dir.join(format!("out{i}.tii"));
@@ -412,6 +448,7 @@ pub fn world_c18(tier: Tier, world_no: u64, mut t: Tape) -> WorldReport {
                 }
             }
         }
+        TX3C_EXTRA.with(|e| e.borrow_mut().clear());
         let _ = std::fs::remove_dir_all(&dir);
         rep.evaluations += nproc as u64;
         match &l2[0] {
